@@ -117,6 +117,18 @@ def extra(report, env):
         cases += 1
     if sizes[-1] > 0 and len(fails) < 5:
         fails.append({'formula': 'nosuch+1 (repeated)', 'detail': 'traceback entries retained on the shared error values after 100/200/300 rounds: %r' % (sizes,)})
+    # ... and after SUCCESSFUL evaluations that raise an error value internally (no failing parse in between to clean up)
+    q = mk()
+    sizes2 = []
+    for rnd in range(3):
+        for _ in range(100):
+            for f in ('IFERROR(SUM(1/0),0)', 'ISERROR(MAX(1,2/0))', 'IFERROR(nosuch,1)+1', 'IF(ISNA(AVERAGE(NA())),1,2)'):
+                q.parse(f)
+        gc.collect()
+        sizes2.append(sum(tblen(getattr(error, n)) for n in names))
+        cases += 1
+    if sizes2[-1] > 0 and len(fails) < 5:
+        fails.append({'formula': 'IFERROR(SUM(1/0),0) (repeated)', 'detail': 'traceback entries retained after successful evaluations: %r' % (sizes2,)})
     bounded(report, 'C02.histories', 'seeded histories of <= 6 parses (22 formulas incl. failing ones and raising callbacks) before a probe vs a fresh '
             'parser; debug on/off for 22 formulas; 5 host lists x 26 consumers deep-compared; traceback growth over 3x1000 failing parses', cases, fails)
 
